@@ -232,4 +232,101 @@ theorem lookup_nanRow (nanv : γ) (ms : List (MetricSpec γ)) (m : MetricSpec γ
       · exact absurd rfl hx
       · simpa [annotatedOf] using ih h
 
+/-! ### a checkable sufficient condition for `ColsOK` -/
+
+theorem split_unique (c : Char) : ∀ (l1 l2 r1 r2 : List Char), c ∉ l1 → c ∉ l2 →
+    l1 ++ c :: r1 = l2 ++ c :: r2 → l1 = l2 ∧ r1 = r2
+  | [], [], r1, r2, _, _, h => by simpa using h
+  | [], d :: l2, r1, r2, _, h2, h => by
+    simp only [List.nil_append, List.cons_append, List.cons.injEq] at h
+    exact absurd (by simp [h.1]) h2
+  | a :: l1, [], r1, r2, h1, _, h => by
+    simp only [List.nil_append, List.cons_append, List.cons.injEq] at h
+    exact absurd (by simp [h.1]) h1
+  | a :: l1, d :: l2, r1, r2, h1, h2, h => by
+    simp only [List.cons_append, List.cons.injEq] at h
+    have := split_unique c l1 l2 r1 r2 (fun hm => h1 (by simp [hm])) (fun hm => h2 (by simp [hm])) h.2
+    exact ⟨by rw [h.1, this.1], this.2⟩
+
+theorem colName_toList (n p : String) : (n ++ "_" ++ p).toList = n.toList ++ '_' :: p.toList := by
+  simp [String.toList_append]
+
+/-- the column name determines (metric name, parameter name) when metric names contain no underscore -/
+theorem colName_inj (n1 n2 p1 p2 : String) (h1 : '_' ∉ n1.toList) (h2 : '_' ∉ n2.toList)
+    (h : n1 ++ "_" ++ p1 = n2 ++ "_" ++ p2) : n1 = n2 ∧ p1 = p2 := by
+  have h' := congrArg String.toList h
+  rw [colName_toList, colName_toList] at h'
+  have := split_unique '_' _ _ _ _ h1 h2 h'
+  exact ⟨String.toList_inj.mp this.1, String.toList_inj.mp this.2⟩
+
+theorem mem_cols (name : String) (ps : List (String × Option (List Rat))) (c : String)
+    (h : c ∈ ps.filterMap (fun p => p.2.map (fun _ => name ++ "_" ++ p.1))) :
+    ∃ k ∈ ps.map (·.1), c = name ++ "_" ++ k := by
+  rw [List.mem_filterMap] at h
+  obtain ⟨p, hp, hc⟩ := h
+  cases hv : p.2 with
+  | none => simp [hv] at hc
+  | some v =>
+    simp only [hv, Option.map_some, Option.some.injEq] at hc
+    exact ⟨p.1, List.mem_map.mpr ⟨p, hp, rfl⟩, hc.symm⟩
+
+theorem cols_nodup (name : String) (ps : List (String × Option (List Rat))) (h : (ps.map (·.1)).Nodup) :
+    (ps.filterMap (fun p => p.2.map (fun _ => name ++ "_" ++ p.1))).Nodup := by
+  induction ps with
+  | nil => simp
+  | cons p ps ih =>
+    obtain ⟨k, v⟩ := p
+    simp only [List.map_cons, List.nodup_cons] at h
+    cases v with
+    | none => simpa [List.filterMap_cons] using ih h.2
+    | some v =>
+      simp only [List.filterMap_cons, Option.map_some, List.nodup_cons]
+      refine ⟨?_, ih h.2⟩
+      intro hm
+      obtain ⟨k', hk', he⟩ := mem_cols name ps _ hm
+      have h' := congrArg String.toList he
+      simp only [String.toList_append, List.append_cancel_left_eq] at h'
+      have : k = k' := String.toList_inj.mp h'
+      exact h.1 (this ▸ hk')
+
+/-- A checkable sufficient condition for `ColsOK` (dict form): distinct metric names without an
+    underscore and different from "y", distinct parameter names per metric. -/
+theorem colsOK_of_no_underscore (yt yp : List Rat) (ms : List (MetricSpec γ))
+    (hnames : (ms.map (·.name)).Nodup) (hpre : ∀ m ∈ ms, m.colPrefix = some m.name)
+    (hparams : ∀ m ∈ ms, (m.params.map (·.1)).Nodup)
+    (hus : ∀ m ∈ ms, '_' ∉ m.name.toList) (hy : ∀ m ∈ ms, m.name ≠ "y") :
+    ColsOK (baseData yt yp) ms := by
+  have hcols : ∀ m ∈ ms, ∀ c ∈ colsOf m, ∃ k, c = m.name ++ "_" ++ k := by
+    intro m hm c hc
+    unfold colsOf at hc
+    rw [hpre m hm] at hc
+    obtain ⟨k, _, he⟩ := mem_cols m.name m.params c hc
+    exact ⟨k, he⟩
+  unfold ColsOK
+  rw [List.nodup_append]
+  refine ⟨?_, by simp [baseData], ?_⟩
+  · rw [List.nodup_flatMap]
+    constructor
+    · intro m hm
+      unfold colsOf
+      rw [hpre m hm]
+      exact cols_nodup m.name m.params (hparams m hm)
+    · have hp : ms.Pairwise (fun a b => a.name ≠ b.name) := (List.pairwise_map.mp hnames)
+      refine hp.imp_of_mem ?_
+      intro a b ha hb hne c hca hcb
+      obtain ⟨k1, h1⟩ := hcols a ha c hca
+      obtain ⟨k2, h2⟩ := hcols b hb c hcb
+      exact hne (colName_inj _ _ _ _ (hus a ha) (hus b hb) (h1.symm.trans h2)).1
+  · intro c hc d hd hcd
+    subst hcd
+    rw [List.mem_flatMap] at hc
+    obtain ⟨m, hm, hcm⟩ := hc
+    obtain ⟨k, hk⟩ := hcols m hm c hcm
+    simp only [baseData, List.map_cons, List.map_nil, List.mem_cons, List.not_mem_nil, or_false] at hd
+    rcases hd with hd | hd
+    · have : m.name ++ "_" ++ k = "y" ++ "_" ++ "true" := by rw [← hk, hd]; rfl
+      exact hy m hm (colName_inj _ _ _ _ (hus m hm) (by decide) this).1
+    · have : m.name ++ "_" ++ k = "y" ++ "_" ++ "pred" := by rw [← hk, hd]; rfl
+      exact hy m hm (colName_inj _ _ _ _ (hus m hm) (by decide) this).1
+
 end FrameMulti
